@@ -1,7 +1,7 @@
 """C10 - predict_draw is a probability, symmetric, and largest for evenly matched teams."""
 import math
 
-from ..predprobe import gen_pred_case, call_pred, in01, alias_clause, team_mu
+from ..predprobe import gen_pred_case, call_pred, in01, alias_clause, inplace_clause, team_mu
 from ..rateprobe import exc_detail
 from ..util import KIND, EPS
 
@@ -68,6 +68,7 @@ def probe_pd(ctx, payload):
         return
     ctx.frac("max_value_seen", d)
     alias_clause(ctx, "pd", payload, case, "predict_draw", d, model, reg)
+    inplace_clause(ctx, "pd", payload, case, "predict_draw", model, reg)
     perm, pp = payload["perm"], payload["pperm"]
     t2 = [[teams[i][j] for j in pj] for i, pj in zip(perm, pp)]
     o2 = call_pred(case, "predict_draw", t2)
